@@ -658,6 +658,19 @@ class TableAttributes(TextAttributes):
                         col_idx=j,
                     )
 
+        def get_border(side, row_idx, col_idx):
+            """Build a cell border from the style, width and color attributes."""
+            border = Border(
+                style=get_broadcast_value(f"border_{side}", row_idx, col_idx)
+            )
+            width = get_broadcast_value("border_width", row_idx, col_idx)
+            if width is not None:
+                border.width = width
+            color = get_broadcast_value(f"border_color_{side}", row_idx, col_idx)
+            if color:
+                border.color = color
+            return border
+
         rows: MutableSequence[str] = []
         for i in range(dim[0]):
             row = df.row(i)
@@ -665,11 +678,7 @@ class TableAttributes(TextAttributes):
 
             for j in range(dim[1]):
                 if j == dim[1] - 1:
-                    border_right = Border(
-                        style=BroadcastValue(
-                            value=self.border_right, dimension=dim
-                        ).iloc(i, j)
-                    )
+                    border_right = get_border("right", i, j)
                 else:
                     border_right = None
 
@@ -698,12 +707,10 @@ class TableAttributes(TextAttributes):
                         hyphenation=get_broadcast_value("text_hyphenation", i, j),
                     ),
                     width=col_widths[j],
-                    border_left=Border(style=get_broadcast_value("border_left", i, j)),
+                    border_left=get_border("left", i, j),
                     border_right=border_right,
-                    border_top=Border(style=get_broadcast_value("border_top", i, j)),
-                    border_bottom=Border(
-                        style=get_broadcast_value("border_bottom", i, j)
-                    ),
+                    border_top=get_border("top", i, j),
+                    border_bottom=get_border("bottom", i, j),
                     vertical_justification=get_broadcast_value(
                         "cell_vertical_justification", i, j
                     ),
